@@ -518,7 +518,7 @@ def plan(tier, seed):
     for i in range(0, n8, 100):
         cases.append({"gen": "raw", "seed": mix(seed, "raw", i), "n": 100})
     # hex / bin inputs for dasl and option fuzz for the tools
-    n9 = 6000 if thorough else 600
+    n9 = 6000 if thorough else 1500
     for i in range(0, n9, 50):
         cases.append({"gen": "dasl", "seed": mix(seed, "dasl", i), "n": 50})
     # E9 option swarm for the utilities over (mostly valid) reference files
